@@ -6,6 +6,7 @@ PROPS = {}
 COMMON_ASSUME = [
     'x86-64 Linux, clang 14, glibc; liba sources compiled directly from /repo with the shipped flag set (-fPIC -fvisibility=hidden -DA_EXPORTS) plus ASan/UBSan at -O1',
     'nothing is proved: absence of violations is claimed only for the generated cases counted here',
+    'arguments are judged as values: that a caller may write any expression for one (a function evaluates it once) is covered by the argument-evaluation scan of each unit (vp/once.py): for every library name the executor uses, the preprocessor expansion of name(marker, ...) with the unit flags must not evaluate a marker more often on its worst path than on the pinned tree (1 for a name the headers declare as a function; exec/once_baseline.json for documented macros)',
 ]
 
 PROPS['C19'] = dict(
@@ -126,7 +127,7 @@ PROPS['C06'] = dict(
     level='exploration',
     rule='choice tape -> <= 300 ops on two strings (heap or embedded objects): catc/catn/cats/cat and their non-terminating "_" forms with any byte values (NUL, >= 0x80) and lengths '
          'chosen to land 2/1/0 short of and 1 past the current capacity, catf from 11 typed templates (%s with a string sized to fill the spare room exactly / one more, %.*s, %d, %5u, %x, %c, '
-         '%%, %g, mixed) compared with snprintf on the same arguments, a_utf_catc over all six encoding lengths, getc/getn (with/without destination, counts up to SIZE_MAX), trim/ltrim/rtrim '
+         '%%, %g, mixed; three templates with a wide-character conversion the "C" locale refuses - at once, after partial output, inside a wide string: the formatter returns a negative value, nothing is appended and a terminated string stays terminated) compared with snprintf on the same arguments, a_utf_catc over all six encoding lengths and on code points related to the one appended before (UTF-16 surrogate halves one after the other, the same again), getc/getn (with/without destination, counts up to SIZE_MAX), trim/ltrim/rtrim '
          'with default white space and explicit sets (incl. NUL, high bytes, "every byte of the content"), setn/setn_ within capacity, setm (incl. reservations of 200..65536 bytes), index accessors at/at_/of, a_utf_len against a_utf_length, a_str_cmp_/cmpn on prefixes of the other string and of the storage of the string itself, exit (ownership hand-over, block checked and released), '
          'swap, dtor+ctor, cmp/cmpn/cmps; after every op len<=mem, content, and the NUL after the content (after terminating variants) are checked against std::string under ASan with an '
          'allocator ledger (allocator policy per history: always move, or grow in place within a size class). non-trivial = history with a reallocation of a non-empty string, a formatted append that exactly fills the spare capacity, or a trim that empties a string of >= 2 bytes; '
@@ -188,7 +189,7 @@ PROPS['C08'] = dict(
          'whose elimination is exact: zero column, bit-identical rows, zero row (PLU); integer unit-L * D * L^T with a zero in D (LDL^T); integer L*L^T with a zero diagonal entry or a pivot made negative (LL^T); '
          'badly scaled block-diagonal classes (uncoupled blocks multiplied by 4^S, S over +-505 / +-57 / +-8185 by type: pivots from ~min to ~max in one matrix; solve and inverse are skipped there), strided triangular solves (lower_/upper_) on one column of an n x n block, solves with the factors returned by plu_L / plu_U / llt_L; symmetric inputs get their strict upper triangle poisoned in half of the cases (the code reads only the lower triangle). Oracle in long double: permutation + parity = sign, |L_ij| <= 1, positive Cholesky diagonal, '
          'componentwise |PA-LU| <= 4*gamma_n|L||U| (gamma_2n for LDL^T, gamma_{n+1} for LL^T, lower triangle), solve / inv / inv_ residuals |b-Ax| <= 4*gamma_{3n(+2)}*(|L||D||L^T|)|x|, det/lndet/sgndet against '
-         'products/sums of the stored pivots and against each other, extraction helpers exact, the determinant family also on a compact factor written by the caller (diagonal with exact zeros of either sign, negative entries, one entry at the smallest normal: sgndet must be the sign product or 0, det 0 and lndet -inf with a zero), solve / inverse / determinant routines also with their const inputs in read-only memory (same bits), singular classes must fail and dominant classes must succeed. non-trivial = n >= 4 and (a row exchange happened, or a '
+         'products/sums of the stored pivots and against each other, extraction helpers exact, the determinant family also on a compact factor written by the caller (diagonal with exact zeros of either sign, negative entries, one entry at the smallest normal: sgndet must be the sign product or 0, det 0 and lndet -inf with a zero), solve / inverse / determinant routines also with their const inputs in read-only memory (same bits), LDL^T inputs whose rows / columns k and k+1 are bit-identical (multiplier x/x = 1, next pivot d - d = 0 exactly) must fail, singular classes must fail and dominant classes must succeed. non-trivial = n >= 4 and (a row exchange happened, or a '
          'non-default symmetric class, or a singular class that was reported); distinct = hash of (kind, n, matrix entries)',
     assumptions=COMMON_ASSUME + ['entries are kept in an exponent window where no intermediate of the elimination over/underflows; cases whose factors still become non-finite are counted under excluded_by_construction',
                                  'singular matrices from real-valued constructions other than the exact classes are not required to fail',
@@ -228,7 +229,7 @@ PROPS['C18'] = dict(
          'reference encoder written from the bit layout, decode(encode(c)) = (same length, c) with and without value output, every proper prefix fails; encode/decode buffers end flush against a PROT_NONE page. '
          '(b) choice tapes: code points near boundaries, arbitrary byte strings of 0..16 bytes (lead/continuation/NUL dictionary) with an independently chosen stated length in an exact-size heap block (ASan): result <= stated '
          'length and <= 6, equal with and without value output, r >= 2 only if the lead announces r and bytes 1..r-1 are continuation bytes and the value equals the bit layout, r = 1 only for a non-NUL byte below 0xC0, '
-         'complete well-formed sequences are not rejected; a_utf_length = number / total length of successive successful decodes; well-formed strings: both counters = number of code points; texts of up to 256 mostly-ASCII code points with embedded NULs before the stated end and random cuts: a_utf_length = successive decodes; a string object built with a_utf_catc and cut back by 0..6 bytes through the non-terminating interface: a_utf_len = a_utf_length on an exact-size copy of the first a_str_len bytes. '
+         'complete well-formed sequences are not rejected; a_utf_length = number / total length of successive successful decodes; well-formed strings: both counters = number of code points; texts of up to 256 mostly-ASCII code points with embedded NULs before the stated end and random cuts: a_utf_length = successive decodes; a string object built with a_utf_catc - after every append the bytes are the concatenated reference encodings and a_utf_len the number of code points appended, with code points related to the previous one (the two halves of a UTF-16 surrogate pair in sequence, the same again, one bit flipped) - and cut back by 0..6 bytes through the non-terminating interface: a_utf_len = a_utf_length on an exact-size copy of the first a_str_len bytes. '
          'non-trivial = multi-byte code point or input starting with a byte >= 0x80; distinct = code points (enumerated, distinct by construction) + hash of decoded tape cases',
     assumptions=COMMON_ASSUME + ['a stray continuation byte decoding as a 1-byte character is not judged: the statement only constrains multi-byte acceptance',
                                  'a_utf_length_ (unchecked counter) is only required to be memory-safe on arbitrary input and exact on well-formed input'],
@@ -244,7 +245,7 @@ PROPS['C18'] = dict(
 PROPS['C16'] = dict(
     level='exploration',
     rule='two builds: a_real = double and float (exactness limit 2^52 resp. 2^23, ulps of the type; the strict-interior window of the generators is [1e-6, 1e5] in the float build, where 1 - 1/(2 pi 1e12) is not representable). choice tape -> one of: (tf) orders num_n, den_n in 0..8, integer coefficients |c|<=3, two integer input sequences |x|<=5 of length <= 24, a zero() position, scalars and a delay: outputs compared exactly with an '
-         '__int128 reference recurrence while every partial sum stays below 2^52, zero+rerun compared with a freshly initialised filter, linearity and time invariance exact on integers, delay lines in exact-size dirty heap blocks, a new numerator or denominator (0..8 coefficients) installed on the live filter with a_tf_set_num / a_tf_set_den (replaced side restarts from zero, the other side keeps its history), the C++ member init/set_num/set_den/call operator/zero on a twin, coefficient vectors of the primary filter in read-only memory; '
+         '__int128 reference recurrence while every partial sum stays below 2^52, zero+rerun compared with a freshly initialised filter, linearity and time invariance exact on integers, delay lines in exact-size dirty heap blocks, a new numerator or denominator (0..8 coefficients) installed on the live filter with a_tf_set_num / a_tf_set_den (replaced side restarts from zero, the other side keeps its history), the C++ member init/set_num/set_den/call operator/zero on a twin, coefficient vectors of the primary filter in read-only memory, homogeneity: the inputs times 2^s give the integer response times 2^s exactly, s over the whole exponent range and preferably at its ends (results down to the smallest subnormal), stored history = returned value; '
          '(lpf) alpha from {0, 1, j/2^m, 2^-k, 1-2^-k, uniform}, integer or real inputs: output inside the range of {0, inputs so far} (exact for the dyadic class, 4 ulp otherwise), constant input: monotone approach and '
          'settling no slower than (1-alpha)^k; (hpf) arbitrary prefix then a constant input: |output| non-increasing and bounded by alpha^k of the step response up to the rounding of (output+x)-input, zero = fresh; lpf/hpf member gen / call operator / zero bit-equal to the C forms; '
          '(gen) fc, ts positive doubles over the WHOLE exponent range (subnormal .. near DBL_MAX), half of them steered so that fc*ts lies in [1e-12, 1e12]: results in [0,1], macro forms A_LPF_GEN / A_HPF_GEN / A_LPF_1/2 / A_HPF_1/2 with expressions as arguments equal to the functions, strictly inside and within 4 ulp of the '
